@@ -202,7 +202,16 @@ func (s *State) Apply(o Op, der map[uint32]*Derived) {
 			s.unlink(o.ID, o.Child)
 		}
 	case OpLAdd:
-		if _, ok := s.Listeners[o.L.Name]; !ok {
+		// an endpoint routes to one External listener only: a second one on it is refused
+		clash := false
+		if o.L.Kind == "External" {
+			for _, l := range s.Listeners {
+				if l.Kind == "External" && l.Endpoint == o.L.Endpoint {
+					clash = true
+				}
+			}
+		}
+		if _, ok := s.Listeners[o.L.Name]; !ok && !clash {
 			s.Listeners[o.L.Name] = o.L
 		}
 	case OpLRemove:
